@@ -496,7 +496,7 @@ pub fn stream_finish_incomplete_strict_18() {
 /// header + preamble can be staged: pieces [0,C1) and [C1,C1+N2) with C1 < 10 <= C1+N2.
 /// After the second write the stream must be in the data state with (range, code) from bytes
 /// 5..10 and exactly the staged-but-unparsed bytes left in tmp, in order.
-fn header_staging<const C1: usize, const N2: usize>() {
+fn header_staging<const C1: usize, const MID: usize, const N2: usize>() {
     let mut t = Tape::<64>::new();
     let mut f = [0u8; 32];
     let mut i = 1;
@@ -522,11 +522,26 @@ fn header_staging<const C1: usize, const N2: usize>() {
         _ => false,
     };
     vassert!(in_header, "staging: still waiting for the header");
-    let r2 = s.write(&f[C1..C1 + N2]);
+    // optional middle piece that still does not complete header + preamble (MID = 0: none;
+    // an empty write when C1 + MID == C1 is covered by MID = 0 instances with an explicit empty write)
+    if MID > 0 {
+        let rm = s.write(&f[C1..C1 + MID]);
+        let nm = match &rm { Ok(n) => *n, Err(_) => usize::MAX };
+        forget(rm);
+        vassert!(nm == MID, "staging: a second short piece is staged in full");
+        vassert!(s.tmp.position() as usize == C1 + MID, "staging: staged bytes accumulate across pieces");
+    } else {
+        let re = s.write(&f[0..0]);
+        let ne = match &re { Ok(n) => *n, Err(_) => usize::MAX };
+        forget(re);
+        vassert!(ne == 0 && s.tmp.position() as usize == C1, "staging: an empty write changes nothing");
+    }
+    let c1 = C1 + MID;
+    let r2 = s.write(&f[c1..c1 + N2]);
     let n2 = match &r2 { Ok(n) => *n, Err(_) => usize::MAX };
     forget(r2);
-    // tmp holds at most 18 bytes: the second write takes what fits
-    let take = if C1 + N2 <= 18 { N2 } else { 18 - C1 };
+    // tmp holds at most 18 bytes: the completing write takes what fits
+    let take = if c1 + N2 <= 18 { N2 } else { 18 - c1 };
     vassert!(n2 == take, "staging: the completing write consumes exactly what it staged");
     match data_state(&s) {
         Some(rs) => {
@@ -542,7 +557,7 @@ fn header_staging<const C1: usize, const N2: usize>() {
             vassert!(false, "staging: data state entered once header + preamble are available");
         }
     }
-    let left = C1 + take - 10;
+    let left = c1 + take - 10;
     vassert!(s.tmp.position() as usize == left, "staging: leftover = staged bytes beyond header + preamble");
     let q = (t.u8() as usize) % 18;
     if q < left {
@@ -560,7 +575,7 @@ fn header_staging<const C1: usize, const N2: usize>() {
 #[cfg_attr(kani, kani::stub(std::io::Error::is_interrupted, crate::verif_common::stub_not_interrupted))]
 #[cfg_attr(kani, kani::stub(crate::decode::lzma::DecoderState::new, crate::decode::stream::verif_h::new_scripted_lit))]
 pub fn stream_header_staging_1_17() {
-    header_staging::<1, 17>()
+    header_staging::<1, 0, 17>()
 }
 
 //@ harness props=C05,C07 tier=thorough optional=yes unwind=10 unwindset=default_read_exact:4,header_staging:34 mem_gb=6 timeout=600 native=no
@@ -570,7 +585,7 @@ pub fn stream_header_staging_1_17() {
 #[cfg_attr(kani, kani::stub(std::io::Error::is_interrupted, crate::verif_common::stub_not_interrupted))]
 #[cfg_attr(kani, kani::stub(crate::decode::lzma::DecoderState::new, crate::decode::stream::verif_h::new_scripted_lit))]
 pub fn stream_header_staging_1_20() {
-    header_staging::<1, 20>()
+    header_staging::<1, 0, 20>()
 }
 
 //@ harness props=C05,C07 tier=thorough optional=yes unwind=10 unwindset=default_read_exact:4,header_staging:34 mem_gb=6 timeout=600 native=no
@@ -580,7 +595,7 @@ pub fn stream_header_staging_1_20() {
 #[cfg_attr(kani, kani::stub(std::io::Error::is_interrupted, crate::verif_common::stub_not_interrupted))]
 #[cfg_attr(kani, kani::stub(crate::decode::lzma::DecoderState::new, crate::decode::stream::verif_h::new_scripted_lit))]
 pub fn stream_header_staging_3_15() {
-    header_staging::<3, 15>()
+    header_staging::<3, 0, 15>()
 }
 
 //@ harness props=C05,C07 tier=thorough optional=yes unwind=10 unwindset=default_read_exact:4,header_staging:34 mem_gb=6 timeout=600 native=no opt_covers=leftover_nonzero
@@ -590,7 +605,7 @@ pub fn stream_header_staging_3_15() {
 #[cfg_attr(kani, kani::stub(std::io::Error::is_interrupted, crate::verif_common::stub_not_interrupted))]
 #[cfg_attr(kani, kani::stub(crate::decode::lzma::DecoderState::new, crate::decode::stream::verif_h::new_scripted_lit))]
 pub fn stream_header_staging_4_6() {
-    header_staging::<4, 6>()
+    header_staging::<4, 0, 6>()
 }
 
 //@ harness props=C05,C07 tier=quick unwind=10 unwindset=default_read_exact:4,header_staging:34 mem_gb=6 timeout=600 native=no opt_covers=leftover_nonzero
@@ -600,7 +615,7 @@ pub fn stream_header_staging_4_6() {
 #[cfg_attr(kani, kani::stub(std::io::Error::is_interrupted, crate::verif_common::stub_not_interrupted))]
 #[cfg_attr(kani, kani::stub(crate::decode::lzma::DecoderState::new, crate::decode::stream::verif_h::new_scripted_lit))]
 pub fn stream_header_staging_5_5() {
-    header_staging::<5, 5>()
+    header_staging::<5, 0, 5>()
 }
 
 //@ harness props=C05,C07 tier=quick unwind=10 unwindset=default_read_exact:4,header_staging:34 mem_gb=6 timeout=600 native=no opt_covers=leftover_nonzero
@@ -610,7 +625,7 @@ pub fn stream_header_staging_5_5() {
 #[cfg_attr(kani, kani::stub(std::io::Error::is_interrupted, crate::verif_common::stub_not_interrupted))]
 #[cfg_attr(kani, kani::stub(crate::decode::lzma::DecoderState::new, crate::decode::stream::verif_h::new_scripted_lit))]
 pub fn stream_header_staging_9_1() {
-    header_staging::<9, 1>()
+    header_staging::<9, 0, 1>()
 }
 
 //@ harness props=C05,C07 tier=quick unwind=10 unwindset=default_read_exact:4,header_staging:34 mem_gb=6 timeout=600 native=no
@@ -620,7 +635,7 @@ pub fn stream_header_staging_9_1() {
 #[cfg_attr(kani, kani::stub(std::io::Error::is_interrupted, crate::verif_common::stub_not_interrupted))]
 #[cfg_attr(kani, kani::stub(crate::decode::lzma::DecoderState::new, crate::decode::stream::verif_h::new_scripted_lit))]
 pub fn stream_header_staging_9_9() {
-    header_staging::<9, 9>()
+    header_staging::<9, 0, 9>()
 }
 
 //@ harness props=C05,C07 tier=quick unwind=10 unwindset=default_read_exact:4,header_staging:34 mem_gb=6 timeout=600 native=no
@@ -630,7 +645,7 @@ pub fn stream_header_staging_9_9() {
 #[cfg_attr(kani, kani::stub(std::io::Error::is_interrupted, crate::verif_common::stub_not_interrupted))]
 #[cfg_attr(kani, kani::stub(crate::decode::lzma::DecoderState::new, crate::decode::stream::verif_h::new_scripted_lit))]
 pub fn stream_header_staging_6_12() {
-    header_staging::<6, 12>()
+    header_staging::<6, 0, 12>()
 }
 
 //@ harness props=C05,C07 tier=thorough optional=yes unwind=10 unwindset=default_read_exact:4,header_staging:34 mem_gb=6 timeout=600 native=no opt_covers=leftover_nonzero
@@ -640,5 +655,35 @@ pub fn stream_header_staging_6_12() {
 #[cfg_attr(kani, kani::stub(std::io::Error::is_interrupted, crate::verif_common::stub_not_interrupted))]
 #[cfg_attr(kani, kani::stub(crate::decode::lzma::DecoderState::new, crate::decode::stream::verif_h::new_scripted_lit))]
 pub fn stream_header_staging_2_8() {
-    header_staging::<2, 8>()
+    header_staging::<2, 0, 8>()
+}
+
+//@ harness props=C05,C07 tier=quick unwind=10 unwindset=default_read_exact:4,header_staging:34 mem_gb=6 timeout=600 native=no
+//@ bound: Stream(UseProvided(symbolic)): three pieces 5 + 2 + 6 bytes (two cuts inside header + preamble): staging accumulates, leftover handling
+#[cfg_attr(kani, kani::proof)]
+#[cfg_attr(kani, kani::stub(std::fmt::format, crate::verif_common::stub_format))]
+#[cfg_attr(kani, kani::stub(std::io::Error::is_interrupted, crate::verif_common::stub_not_interrupted))]
+#[cfg_attr(kani, kani::stub(crate::decode::lzma::DecoderState::new, crate::decode::stream::verif_h::new_scripted_lit))]
+pub fn stream_header_staging3_5_2_6() {
+    header_staging::<5, 2, 6>()
+}
+
+//@ harness props=C05,C07 tier=quick unwind=10 unwindset=default_read_exact:4,header_staging:34 mem_gb=6 timeout=600 native=no
+//@ bound: Stream(UseProvided(symbolic)): three pieces 6 + 3 + 9 bytes (two cuts inside header + preamble): staging accumulates, leftover handling
+#[cfg_attr(kani, kani::proof)]
+#[cfg_attr(kani, kani::stub(std::fmt::format, crate::verif_common::stub_format))]
+#[cfg_attr(kani, kani::stub(std::io::Error::is_interrupted, crate::verif_common::stub_not_interrupted))]
+#[cfg_attr(kani, kani::stub(crate::decode::lzma::DecoderState::new, crate::decode::stream::verif_h::new_scripted_lit))]
+pub fn stream_header_staging3_6_3_9() {
+    header_staging::<6, 3, 9>()
+}
+
+//@ harness props=C05,C07 tier=quick unwind=10 unwindset=default_read_exact:4,header_staging:34 mem_gb=6 timeout=600 native=no opt_covers=leftover_nonzero
+//@ bound: Stream(UseProvided(symbolic)): three pieces 5 + 1 + 4 bytes (two cuts inside header + preamble): staging accumulates, leftover handling
+#[cfg_attr(kani, kani::proof)]
+#[cfg_attr(kani, kani::stub(std::fmt::format, crate::verif_common::stub_format))]
+#[cfg_attr(kani, kani::stub(std::io::Error::is_interrupted, crate::verif_common::stub_not_interrupted))]
+#[cfg_attr(kani, kani::stub(crate::decode::lzma::DecoderState::new, crate::decode::stream::verif_h::new_scripted_lit))]
+pub fn stream_header_staging3_5_1_4() {
+    header_staging::<5, 1, 4>()
 }
